@@ -97,10 +97,17 @@ def cases(draw, cfg):
 # oracle
 # ---------------------------------------------------------------------------------------------
 
+def _ended(it, pos: int) -> bool:
+    """every life of the instance id that began before event position `pos` was finalized before it (an id that was
+    initialised again after its finalize has several lives)"""
+    n_init = sum(1 for q, _ in it.init if q < pos) or (1 if any(q < pos for q, _ in it.exec) else 0)
+    return sum(1 for q, _ in it.fin if q < pos) >= n_init
+
+
 def oracle(case, tr: C.Trace) -> tuple[list[Violation], dict]:
     out: list[Violation] = []
     info = {"conflicts_same": 0, "conflicts_overlap": 0, "instances": 0, "same_tick_starts": 0, "run_ends": 0, "restarts": 0,
-            "alive_at_run_end": 0, "conflicts_running": 0, "older_finalized_after_newer_init": 0, "runs": 0}
+            "alive_at_run_end": 0, "conflicts_running": 0, "attributed_to_leak": 0, "finalize_without_init": 0, "older_finalized_after_newer_init": 0, "runs": 0, "tick_raised": 0}
 
     def viol(sig, msg):
         if not any(v.sig == sig for v in out):
@@ -111,32 +118,56 @@ def oracle(case, tr: C.Trace) -> tuple[list[Violation], dict]:
     tick_from = {t.no: t.ev_from for t in tr.ticks}
     tick_end = {t.no: t.ev_from + len(t.ev) for t in tr.ticks}
 
-    # -- A. pairing per instance ------------------------------------------------------------------
+    # instances that outlived the end of their run (reported below as finalize:missing-at-run-end): what such a leaked instance
+    # does in the next run (it stays registered; a later request of its name takes it over; an overlapping command does not
+    # cancel it because no request owns it) follows from that one defect and is attributed to it, not judged again
+    leaked: dict = {}
+    for r in C.runs_of(tr):
+        if r["stop_tick"] is None:
+            continue
+        end_pos = tick_end[r["stop_tick"]]
+        for it in insts.values():
+            if r["start_pos"] < it.first_pos < r["stop_pos"] and (it.init or it.exec) and not _ended(it, end_pos):
+                leaked[it.id] = r["stop_pos"]
+
+    # -- A. pairing per instance (a small state machine over the instance's callbacks in order) ---------------
     for it in insts.values():
         tag = "%s (..%s, args %r)" % (it.name, it.id[-4:], it.args)
-        if it.exec and not it.init:
-            viol("init:missing", "%s executed in tick %d without an init callback" % (tag, it.exec[0][1]))
-        elif it.exec and it.init[0][0] > it.exec[0][0]:
-            viol("init:after-exec", "%s: first exec in tick %d precedes init in tick %d" % (tag, it.exec[0][1], it.init[0][1]))
-        if len(it.init) > 1:
-            first_fin = it.fin[0][0] if it.fin else None
-            if first_fin is not None and it.init[1][0] > first_fin:
-                viol("reinit-after-finalize", "%s: finalized in tick %d, then initialised again in tick %d and executed from "
-                     "iteration 0 (%d exec callbacks afterwards)"
-                     % (tag, it.fin[0][1], it.init[1][1], sum(1 for p, _ in it.exec if p > it.init[1][0])))
+        seq = sorted([(p, t, "init") for p, t in it.init] + [(p, t, "exec") for p, t in it.exec] +
+                     [(p, t, "finalize") for p, t in it.fin])
+        state = "new"            # new -> initialised -> finalized (-> initialised again = a second life, reported once)
+        last_fin = None
+        for pos, tick, ph in seq:
+            if ph == "init":
+                if state == "new":
+                    state = "initialised"
+                elif state == "initialised":
+                    viol("init:twice", "%s: second init callback in tick %d without a finalize in between" % (tag, tick))
+                else:
+                    viol("reinit-after-finalize", "%s: finalized in tick %d, then initialised again in tick %d and executed "
+                         "from iteration 0 (%d exec callbacks afterwards)"
+                         % (tag, last_fin, tick, sum(1 for q, _ in it.exec if q > pos)))
+                    state = "initialised"
+            elif ph == "exec":
+                if state == "new":
+                    viol("init:missing", "%s executed in tick %d without a preceding init callback" % (tag, tick))
+                    state = "initialised"
+                elif state == "finalized":
+                    viol("callback-after-finalize:exec", "%s: exec in tick %d after finalize in tick %d" % (tag, tick, last_fin))
             else:
-                viol("init:twice", "%s: init callbacks in ticks %r" % (tag, [t for _, t in it.init]))
-        if len(it.fin) > 1:
-            reinit = len(it.init) > 1 and it.init[1][0] > it.fin[0][0]
-            if not (reinit and len(it.fin) == len(it.init)):     # a second life is reported as reinit-after-finalize
-                viol("finalize:twice", "%s: finalize callbacks in ticks %r" % (tag, [t for _, t in it.fin]))
-        if len(it.args_seen) > 1:
+                if state == "finalized":
+                    viol("finalize:twice", "%s: finalize callbacks in ticks %d and %d without an init in between"
+                         % (tag, last_fin, tick))
+                elif state == "new":
+                    # an instance that never started (arguments rejected) is finalized by a cancel: the statement asks for the
+                    # init before the first execution only, so this is counted, not judged
+                    info["finalize_without_init"] += 1
+                state, last_fin = "finalized", tick
+        if len(it.args_seen) > 1 and it.id in leaked:
+            info["attributed_to_leak"] += 1
+        elif len(it.args_seen) > 1:
             viol("instance:args-changed", "%s: one instance executed with different arguments %r (another request took the "
                  "instance over)" % (tag, it.args_seen))
-        if it.fin and len(it.init) <= 1:
-            late = [(p, t) for p, t in it.exec if p > it.fin[0][0]]
-            if late:
-                viol("callback-after-finalize:exec", "%s: exec in tick %d after finalize in tick %d" % (tag, late[0][1], it.fin[0][1]))
 
     # -- B. exclusivity per tick --------------------------------------------------------------------
     for t in tr.ticks:
@@ -150,6 +181,9 @@ def oracle(case, tr: C.Trace) -> tuple[list[Violation], dict]:
             if len(ids) > 1:
                 a, b = insts[ids[0]], insts[ids[1]]
                 lo, hi = tick_from[t.no], tick_end[t.no]
+                if any(x.id in leaked and leaked[x.id] < lo for x in (a, b)):
+                    info["attributed_to_leak"] += 1
+                    continue
                 pa = [q for q, _ in a.exec if lo <= q < hi][0]
                 pb = [q for q, _ in b.exec if lo <= q < hi][0]
                 together = a.alive_at(pb) or b.alive_at(pa)
@@ -172,6 +206,9 @@ def oracle(case, tr: C.Trace) -> tuple[list[Violation], dict]:
                 continue
             if any(fp < start_of_tick for fp, _ in o.fin):
                 continue            # ended before this tick: no conflict
+            if o.id in leaked and leaked[o.id] < p:
+                info["attributed_to_leak"] += 1
+                continue            # the older one is a leftover of an ended run (reported as finalize:missing-at-run-end)
             started_this_tick = o.first_pos >= start_of_tick
             if started_this_tick:
                 info["same_tick_starts"] += 1
@@ -212,7 +249,7 @@ def oracle(case, tr: C.Trace) -> tuple[list[Violation], dict]:
         for it in insts.values():
             if not (r["start_pos"] < it.first_pos < stop_pos):
                 continue
-            if not any(fp < end_pos for fp, _ in it.fin):
+            if (it.init or it.exec) and not _ended(it, end_pos):
                 began = [q for q, _ in it.init] or [q for q, _ in it.exec]
                 cause = "started-after-cancel" if max(began) >= begin_pos else "not-cancelled"
                 viol("finalize:missing-at-run-end:%s" % cause,
@@ -237,7 +274,7 @@ def oracle(case, tr: C.Trace) -> tuple[list[Violation], dict]:
                 viol("registry:alive-instance-not-registered", "tick %d: %s (..%s) is initialised and not finalized but not in "
                      "uod.command_instances %r" % (t.no, it.name, it.id[-4:], sorted(reg.values())))
         if t.raised is not None:
-            viol("tick-raised:%s" % type(t.raised).__name__, "tick %d raised %r" % (t.no, t.raised))
+            info["tick_raised"] += 1          # judged by C13, only classified here
     return out, info
 
 
@@ -291,6 +328,12 @@ def run_shard(col, cfg):
             classes.append("user-command")
         if "Alarm" in kinds:
             classes.append("alarm")
+        if info["tick_raised"]:
+            classes.append("tick-raised(judged-by-C13)")
+        if info["finalize_without_init"]:
+            classes.append("never-started-instance-finalized-by-cancel")
+        if info["attributed_to_leak"]:
+            col.count("excluded_known:consequence-of-instance-leaked-at-run-end")
         col.count("count:instances", info["instances"])
         col.count("count:conflicts", info["conflicts_same"] + info["conflicts_overlap"])
         col.count("count:conflicts-with-a-command-running-since-an-earlier-tick", info["conflicts_running"])
